@@ -39,12 +39,26 @@ def run(scn):
     dw, pdw = d["dw"], d["port_dw"]
     depth_words = d["depth_words"]
     base_words = d.get("base_words", 0)
-    wp = LiteDRAMNativePort("write", 24, pdw)
-    rp = LiteDRAMNativePort("read", 24, pdw)
-    dut = LiteDRAMFIFO(dw, base=base_words * (pdw // 8), depth=depth_words * (pdw // 8), write_port=wp, read_port=rp,
-                       with_bypass=d.get("bypass", False), pre_fifo_depth=d.get("pre", 16), post_fifo_depth=d.get("post", 16))
-    sim = Sim(dut, {"sys": 10000})
-    viol = Violations(sim)
+    core = scn.get("core")
+    mk = lambda wp_, rp_: LiteDRAMFIFO(dw, base=base_words * (pdw // 8), depth=depth_words * (pdw // 8), write_port=wp_, read_port=rp_,
+                                       with_bypass=d.get("bypass", False), pre_fifo_depth=d.get("pre", 16), post_fifo_depth=d.get("post", 16))
+    if core:
+        # variant "core": write and read port of the real core (crossbar + controller), DramRef as DRAM
+        from ..corebench import core_host, CorePortView
+        box = {}
+
+        def attach(top, ports):
+            box["dut"] = mk(ports[0], ports[1])
+            top.submodules.frontend = box["dut"]
+        tb, sim, viol, dram = core_host(core, Violations, attach)
+        dut = box["dut"]
+        wp, rp = tb.ports
+    else:
+        wp = LiteDRAMNativePort("write", 24, pdw)
+        rp = LiteDRAMNativePort("read", 24, pdw)
+        dut = mk(wp, rp)
+        sim = Sim(dut, {"sys": 10000})
+        viol = Violations(sim)
     grp = MemGroup()
     mw, mr = scn["wmem"], scn["rmem"]
     slot_busy = {}
@@ -66,10 +80,14 @@ def run(scn):
         if not slot_busy.get(a):
             viol.add("read_unwritten", "FIFO read DRAM slot 0x%x that holds no unread word" % a)
         slot_busy[a] = False
-    memw = NativeMemSlave(sim, wp, cmd_ready=mw.get("cmd_ready"), max_out=mw.get("max_out", 8), wl1=mw.get("wl1", 1), rl1=mw.get("rl1", 3),
-                          extra=mw.get("extra"), viol=viol, name="wmem", on_cmd=on_wcmd, group=grp)
-    memr = NativeMemSlave(sim, rp, cmd_ready=mr.get("cmd_ready"), max_out=mr.get("max_out", 8), wl1=mw.get("wl1", 1), rl1=mw.get("rl1", 3),
-                          extra=mr.get("extra"), viol=viol, name="rmem", on_cmd=on_rcmd, group=grp)
+    if core:
+        memw = CorePortView(sim, tb, dram, wp, name="wmem", on_cmd=on_wcmd)
+        memr = CorePortView(sim, tb, dram, rp, name="rmem", on_cmd=on_rcmd)
+    else:
+      memw = NativeMemSlave(sim, wp, cmd_ready=mw.get("cmd_ready"), max_out=mw.get("max_out", 8), wl1=mw.get("wl1", 1), rl1=mw.get("rl1", 3),
+                            extra=mw.get("extra"), viol=viol, name="wmem", on_cmd=on_wcmd, group=grp)
+      memr = NativeMemSlave(sim, rp, cmd_ready=mr.get("cmd_ready"), max_out=mr.get("max_out", 8), wl1=mw.get("wl1", 1), rl1=mw.get("rl1", 3),
+                            extra=mr.get("extra"), viol=viol, name="rmem", on_cmd=on_rcmd, group=grp)
     n = scn["n"]
     delays = scn.get("delays") or [0]
     mask = (1 << dw) - 1
@@ -77,7 +95,7 @@ def run(scn):
     out = []
     drv = StreamDriver(sim, dut.sink, items, ["data"])
     snk = StreamSink(sim, dut.source, ["data"], ready=scn.get("ready"), on_xfer=lambda x: out.append(x["data"]))
-    for a in (drv, snk, memw, memr):
+    for a in (drv, snk) + (() if core else (memw, memr)):
         sim.add_agent("sys", a)
     ctx = {"pump_entered": 0, "dram_entered": 0, "left_dram": 0}
     viol.extra = lambda: dict(ctx)
@@ -89,6 +107,8 @@ def run(scn):
     ratio = pdw // dw
     cap = 1000 + sum(delays) * (n // len(delays) + 1) + n * (stall + 6) + (n // ratio + 4) * (max(mw.get("extra") or [0]) + max(mr.get("extra") or [0]) + 30)
     need_quiet = 200 + max([b for a, b in pats] or [0]) + max(mw.get("extra") or [0]) + max(mr.get("extra") or [0])
+    if core:
+        cap = 3 * cap + 5000
     S = sim.S
     cyc = 0
     quiet = 0
@@ -126,6 +146,7 @@ def run(scn):
         viol.add("stream_duplicate", "%d words in, %d words out" % (n, len(out)))
     elif len(out) < n:
         viol.add("stream_loss_or_hang", "%d words given (%d accepted), %d delivered after %d cycles (level %d)" % (n, drv.n, len(out), cyc, S[i_level]))
+    stats["core_variant_runs"] = 1 if core else 0
     stats["words"] = len(out)
     stats["bypassed_words"] = max(0, len(out) - stats["dram_words_read"] * ratio)
     return {"violations": viol.v, "stats": stats, "cycles": cyc, "sim_ps": sim.now, "digest": sim.digest(),
@@ -164,7 +185,19 @@ def gen(rng, tier, index):
     def mem():
         wl1 = rng.randint(1, 6)
         return {"cmd_ready": gen_pattern(rng), "max_out": rng.randint(3, 24), "wl1": wl1, "rl1": rng.randint(wl1 + 1, 14), "extra": gen_extra(rng)}
-    return {"dut": d, "n": n, "delays": delays, "ready": ready, "wmem": mem(), "rmem": mem()}
+    scn = {"dut": d, "n": n, "delays": delays, "ready": ready, "wmem": mem(), "rmem": mem()}
+    if rng.random() < 0.12:
+        from .. import coregen
+        core, info = coregen.gen_core(rng, nports=2, nranks=1)
+        core["ports"] = [{"mode": "write"}, {"mode": "read"}]
+        pdw2 = info["data_bytes"] * 8
+        r_ = pdw // dw
+        if pdw2 // r_ >= 8:
+            d["port_dw"], d["dw"] = pdw2, pdw2 // r_
+            d["base_words"] = rng.choice([0, 16, 1000])
+            scn["n"] = min(n, 600)
+            scn["core"] = core
+    return scn
 
 
 def classify(scn, viol):
